@@ -318,6 +318,140 @@ theorem decodeMsg_encodeExtInRaw (p : ExtInParts) (h : PartsWF p) :
       rw [decodeStateInit_encode si hw]
       simp [readBit, nextRef, treeStore]
 
+/-! ### all three kinds of CommonMsgInfo -/
+
+theorem decodeGrams_encode (v : Nat) (hv : v < 2 ^ 64) (rest : List Bool) (refs : List α) :
+    decodeGrams (⟨encodeVarUInt16 v ++ rest, refs⟩ : Slice α) = .ok (v, ⟨rest, refs⟩) := by
+  obtain ⟨h1, h2⟩ := natBytes_spec v (by omega)
+  have h8 : natBytes v ≤ 8 := by
+    unfold natBytes
+    split
+    · omega
+    · rename_i h
+      have hlog : Nat.log2 v < 64 := (Nat.log2_lt h).mpr hv
+      omega
+  unfold decodeGrams encodeVarUInt16
+  rw [List.append_assoc, readUint_natToBits 4 (natBytes v) (by omega)]
+  have : ¬ natBytes v > 8 := by omega
+  simp only [Outcome.bind, this, if_false]
+  exact readUint_natToBits _ v h2 rest refs
+
+/-- well-formed CommonMsgInfo: addresses well formed, Grams fields below 2^64, import fee below 2^120, the time
+fields in their widths, no extra currencies -/
+def InfoWF : Info → Prop
+  | .int _ _ _ src dest grams hasExtra ihrFee fwdFee lt at_ =>
+    AddrWF src ∧ AddrWF dest ∧ grams < 2 ^ 64 ∧ hasExtra = false ∧ ihrFee < 2 ^ 64 ∧ fwdFee < 2 ^ 64 ∧
+      lt < 2 ^ 64 ∧ at_ < 2 ^ 32
+  | .extIn src dest fee => AddrWF src ∧ AddrWF dest ∧ fee < 2 ^ 120
+  | .extOut src dest lt at_ => AddrWF src ∧ AddrWF dest ∧ lt < 2 ^ 64 ∧ at_ < 2 ^ 32
+
+theorem readBits_three (a b c : Bool) (tl : List Bool) (rs : List α) :
+    readBits 3 (⟨a :: b :: c :: tl, rs⟩ : Slice α) = .ok ([a, b, c], ⟨tl, rs⟩) := by
+  simp [readBits]
+
+theorem decodeInfo_encode (i : Info) (h : InfoWF i) (rest : List Bool) (refs : List α) :
+    decodeInfo (⟨encodeInfo i ++ rest, refs⟩ : Slice α) = .ok (i, ⟨rest, refs⟩) := by
+  cases i with
+  | extIn src dest fee =>
+    obtain ⟨hs, hd, hf⟩ := h
+    unfold encodeInfo
+    simp only [List.append_assoc]
+    exact decodeInfo_extIn src dest fee hs hd hf rest refs
+  | extOut src dest lt at_ =>
+    obtain ⟨hs, hd, hl, ha⟩ := h
+    unfold decodeInfo encodeInfo
+    simp only [List.cons_append, List.nil_append, readBit_cons, Outcome.bind, Bool.not_true, Bool.false_eq_true, if_false,
+      List.append_assoc]
+    rw [decodeAddr_encode src hs]
+    simp only []
+    rw [decodeAddr_encode dest hd]
+    simp only []
+    rw [readUint_natToBits 64 lt hl]
+    simp only []
+    rw [readUint_natToBits 32 at_ ha]
+  | int ihr bnc bnd src dest grams hasExtra ihrFee fwdFee lt at_ =>
+    obtain ⟨hs, hd, hg, hx, hi, hf, hl, ha⟩ := h
+    subst hx
+    unfold decodeInfo encodeInfo
+    simp only [List.cons_append, List.nil_append, readBit_cons, Outcome.bind, Bool.not_false, if_true,
+      List.append_assoc, readBits_three]
+    rw [decodeAddr_encode src hs]
+    simp only []
+    rw [decodeAddr_encode dest hd]
+    simp only []
+    rw [decodeGrams_encode grams hg]
+    simp only [readBit_cons, Bool.false_eq_true, if_false]
+    rw [decodeGrams_encode ihrFee hi]
+    simp only []
+    rw [decodeGrams_encode fwdFee hf]
+    simp only []
+    rw [readUint_natToBits 64 lt hl]
+    simp only []
+    rw [readUint_natToBits 32 at_ ha]
+    simp
+
+def MsgPartsWF (p : MsgParts) : Prop :=
+  InfoWF p.info ∧ (∀ si, p.init = InitForm.inline si → StateInitWF si)
+
+/-- decoding the encoded message of ANY kind gives the parts back; the body value does not depend on its placement -/
+theorem decodeMsg_encodeMsgRaw (p : MsgParts) (h : MsgPartsWF p) :
+    decodeMsg treeStore ⟨(encodeMsgRaw p).1, (encodeMsgRaw p).2⟩ =
+      .ok ⟨p.info, p.init, p.bodyForm == .ref, ⟨p.body.bits, p.body.refs⟩⟩ := by
+  obtain ⟨hi, hsi⟩ := h
+  obtain ⟨info, init, form, body⟩ := p
+  simp only at hi hsi
+  unfold decodeMsg
+  cases init with
+  | absent =>
+    cases form with
+    | inline =>
+      simp only [encodeMsgRaw, encodeInit, List.append_assoc]
+      rw [decodeInfo_encode info hi]
+      simp [Outcome.bind, readBit]
+    | ref =>
+      simp only [encodeMsgRaw, encodeInit, List.append_assoc]
+      rw [decodeInfo_encode info hi]
+      simp [Outcome.bind, readBit, nextRef, treeStore]
+  | ref r =>
+    cases form with
+    | inline =>
+      simp only [encodeMsgRaw, encodeInit, List.append_assoc]
+      rw [decodeInfo_encode info hi]
+      simp [Outcome.bind, readBit, nextRef]
+    | ref =>
+      simp only [encodeMsgRaw, encodeInit, List.append_assoc]
+      rw [decodeInfo_encode info hi]
+      simp [Outcome.bind, readBit, nextRef, treeStore]
+  | inline si =>
+    have hw := hsi si rfl
+    cases form with
+    | inline =>
+      simp only [encodeMsgRaw, encodeInit, List.append_assoc]
+      rw [decodeInfo_encode info hi]
+      simp only [Outcome.bind, List.cons_append, readBit_cons, Bool.not_true, Bool.false_eq_true, if_false]
+      rw [decodeStateInit_encode si hw]
+      simp [readBit]
+    | ref =>
+      simp only [encodeMsgRaw, encodeInit, List.append_assoc]
+      rw [decodeInfo_encode info hi]
+      simp only [Outcome.bind, List.cons_append, readBit_cons, Bool.not_true, Bool.false_eq_true, if_false]
+      rw [decodeStateInit_encode si hw]
+      simp [readBit, nextRef, treeStore]
+
+theorem encodeMsg_cell (p : MsgParts) (c : Cell) (e : encodeMsg p = .ok c) :
+    c = Cell.ordinary (encodeMsgRaw p).1 (encodeMsgRaw p).2 := by
+  unfold encodeMsg at e
+  simp only [] at e
+  split at e
+  · cases e
+  · split at e
+    · cases e
+    · injection e with e; exact e.symm
+
+theorem encodeExtInRaw_eq (p : ExtInParts) : encodeExtInRaw p = encodeMsgRaw p.toMsgParts := by
+  obtain ⟨src, dest, fee, init, form, body⟩ := p
+  cases form <;> simp [encodeExtInRaw, encodeMsgRaw, ExtInParts.toMsgParts, encodeInfo]
+
 /-- length of an encoded well-formed address -/
 theorem encodeAddr_length_le (a : MsgAddr) (h : AddrWF a) : (encodeAddr a).length ≤ 600 := by
   have hany : ∀ any, AnyWF any → (encodeAnycast any).length ≤ 37 := by
